@@ -13,6 +13,7 @@ through hook H20 on the same lines.  Page contents are tags (`Nat`).
 * `pc get <pid>` · `pc insert <pid> <tag> <bucket>` (→ returned tag) · `pc batch <pid>=<tag/bucket|->,…` · `pc evict` · `pc idx <pid>`
 * `lc new <dbg> <shards> <MiB>` · `lc max <m>` · `lc lookup <shard> <pn> <stored tag>` · `lc get <shard> <pn>` ·
   `lc insert <shard> <pn> <tag>` · `lc evict`
+* `lcq get|insert|evict1 …`: replay of the leaf-cache calls recorded from a REAL store (`caches-db`): results only
 * `ps new` · `ps restart <0|1>` · `ps insert <pid> <tag> <bucket>` · `ps get <pid>` · `ps contains <pid>`
 * `flags <insertLt 0|1> <leafSkipFull 0|1>`: switch the mirror to a seeded variant
 dump: `root=<e>[ limits=<v*n,…>] <i>:F[<pid=tag/bucket,…>]L[…]` for the non-empty shards (pinned map sorted by page id,
@@ -176,6 +177,35 @@ def cachesStep (st : CaSt) (line : String) : CaSt × String :=
           | _ => (st, "panic")
         | _, _, _ => (st, "parse error")
       | ["evict"] => let lc' := lc.evict; ({ st with lc := some lc' }, s!"ok | {lcDump lc' false}")
+      | _ => (st, "unknown")
+  | "lcq" :: rest =>
+    -- replay of a recorded trace of the real store's leaf cache: results only, no dump
+    match st.lc with
+    | none => (st, "no cache")
+    | some lc =>
+      match rest with
+      | ["get", h, pn] =>
+        match h.toNat?, pn.toNat? with
+        | some h, some pn =>
+          match lc.get h pn with
+          | .ok (r, lc') => ({ st with lc := some lc' }, (r.map toString).getD "-")
+          | _ => (st, "panic")
+        | _, _ => (st, "parse error")
+      | ["insert", h, pn, t] =>
+        match h.toNat?, pn.toNat?, t.toNat? with
+        | some h, some pn, some t =>
+          match lc.insert st.q h pn t with
+          | .ok lc' => ({ st with lc := some lc' }, "ok")
+          | _ => (st, "panic")
+        | _, _, _ => (st, "parse error")
+      | ["evict1", i, _m] =>
+        -- `evict` reaches shard `i` (the loop body of `LeafCache::evict` for one shard)
+        match i.toNat? with
+        | some i =>
+          match lc.shards[i]? with
+          | some s => ({ st with lc := some { shards := lc.shards.set i { s with cache := s.cache.evict s.maxItems } } }, "ok")
+          | none => (st, "panic")
+        | none => (st, "parse error")
       | _ => (st, "unknown")
   | ["ps", "new"] => ({ st with ps := PageSet.new none }, "ok")
   | ["ps", "restart", w] =>
